@@ -99,6 +99,26 @@ Theorem C19_sdp_clients_independent : forall recs ops s d,
 Proof. exact clients_independent. Qed.
 Print Assumptions C19_sdp_clients_independent.
 
+(* A client's L2CAP channel closes at any point: every OTHER client's continuation state is untouched (served
+   or parked), so its transaction under way continues exactly as if the closing client had never existed; the
+   closing client's own state is dropped; the served state is reset exactly when the closing channel is the
+   one being served. *)
+Theorem C19_sdp_close_leaves_others_untouched : forall recs s a b,
+  a <> b -> view (fst (s_step recs s (Disconnect b))) a = view s a.
+Proof. exact disconnect_other_untouched. Qed.
+Print Assumptions C19_sdp_close_leaves_others_untouched.
+
+Theorem C19_sdp_close_between_pieces : forall recs s a b mtu q,
+  a <> b ->
+  snd (s_step recs (fst (s_step recs s (Disconnect b))) (Request a mtu q)) =
+  [(a, snd (handle recs mtu (view s a) q))].
+Proof. exact disconnect_between_pieces. Qed.
+Print Assumptions C19_sdp_close_between_pieces.
+
+Theorem C19_sdp_close_drops_own_state : forall recs s b, view (fst (s_step recs s (Disconnect b))) b = RNone.
+Proof. exact disconnect_own_dropped. Qed.
+Print Assumptions C19_sdp_close_drops_own_state.
+
 Theorem C19_sdp_response_to_requester : forall recs s c mtu q,
   exists r, snd (s_step recs s (Request c mtu q)) = [(c, r)].
 Proof. exact response_to_requester. Qed.
@@ -263,6 +283,17 @@ Theorem C19_sdp_budget_matches_source : forall recs mtu b h pat mb ids,
   respond_bytes ESearchAttr (g_sdp_sattr_budget mb mtu) (RBytes b).
 Proof. exact sdp_budget_src. Qed.
 Print Assumptions C19_sdp_budget_matches_source.
+
+(* Server.on_channel_close as it is in the source (unconditional pop; reset guarded by `channel is
+   self.channel`) is the model's Disconnect step *)
+Theorem C19_sdp_close_matches_source :
+  g_sdp_close_shape = [1; 1; 1; 1; 2] /\
+  forall recs s b,
+    fst (s_step recs s (Disconnect b)) =
+    if is_chan s b then mkS None RNone (p_remove b (s_pending s))
+    else mkS (s_chan s) (s_cur s) (p_remove b (s_pending s)).
+Proof. exact sdp_close_src. Qed.
+Print Assumptions C19_sdp_close_matches_source.
 
 Theorem C19_sdp_continuation_matches_source :
   g_sdp_continuation_state = e_sdp_continuation_state /\
